@@ -535,10 +535,11 @@ pub fn all_fragments<Ctx: Cx>(te: &Terms<Ctx>, max_nodes: usize) -> Vec<T> {
     out
 }
 
-/// One-hole contexts: the fragment in every child position of every binary / ternary constructor
-/// and of 2- and 3-child thresholds, next to fixed key siblings. Whether a combination is well
-/// typed is decided by `Miniscript::from_ast` when the candidate is built; only B results are kept.
-pub fn in_contexts<Ctx: Cx>(f: &T) -> Vec<T> {
+/// One-hole contexts: the fragment below every unary wrapper and in every child position of every
+/// binary / ternary constructor and of 2- and 3-child thresholds, next to fixed key siblings of
+/// each base type. Whether a combination is well typed is decided by `Miniscript::from_ast` when
+/// the candidate is built. All well-typed results (any base type) are returned.
+pub fn contexts1<Ctx: Cx>(f: &T) -> Vec<T> {
     let b = |t: T| Box::new(t);
     let p = || T::Check(b(T::PkK("K8".into())));
     let q = || T::Check(b(T::PkK("K7".into())));
@@ -547,20 +548,33 @@ pub fn in_contexts<Ctx: Cx>(f: &T) -> Vec<T> {
     let vp = || T::Verify(b(p()));
     let x = || f.clone();
     let cands = vec![
+        T::Alt(b(x())),
+        T::Swap(b(x())),
+        T::Check(b(x())),
+        T::DupIf(b(x())),
+        T::Verify(b(x())),
+        T::NonZero(b(x())),
+        T::ZeroNotEqual(b(x())),
         T::AndV(b(x()), b(p())),
+        T::AndV(b(x()), b(vp())),
+        T::AndV(b(vp()), b(x())),
         T::AndB(b(x()), b(s())),
         T::AndB(b(p()), b(x())),
         T::OrB(b(x()), b(s())),
         T::OrB(b(p()), b(x())),
-        T::AndV(b(T::OrC(b(x()), b(vp()))), b(q())),
-        T::AndV(b(T::OrC(b(q()), b(x()))), b(p())),
+        T::OrC(b(x()), b(vp())),
+        T::OrC(b(q()), b(x())),
         T::OrD(b(x()), b(p())),
         T::OrD(b(p()), b(x())),
         T::OrI(b(x()), b(p())),
         T::OrI(b(p()), b(x())),
+        T::OrI(b(x()), b(vp())),
+        T::OrI(b(vp()), b(x())),
         T::AndOr(b(x()), b(p()), b(q())),
         T::AndOr(b(p()), b(x()), b(q())),
         T::AndOr(b(p()), b(q()), b(x())),
+        T::AndOr(b(p()), b(x()), b(vp())),
+        T::AndOr(b(p()), b(vp()), b(x())),
         T::Thresh(1, vec![x(), s()]),
         T::Thresh(2, vec![x(), s()]),
         T::Thresh(1, vec![p(), x()]),
@@ -569,13 +583,82 @@ pub fn in_contexts<Ctx: Cx>(f: &T) -> Vec<T> {
         T::Thresh(2, vec![p(), x(), s2()]),
         T::Thresh(1, vec![p(), s(), x()]),
     ];
-    cands
-        .into_iter()
-        .filter(|t| match crate::ast::build::<String, Ctx>(t, &crate::ast::StrEnv) {
-            Ok(ms) => ms.ty.corr.base == miniscript::miniscript::types::Base::B,
-            Err(_) => false,
-        })
-        .collect()
+    cands.into_iter().filter(|t| crate::ast::build::<String, Ctx>(t, &crate::ast::StrEnv).is_ok()).collect()
+}
+
+fn is_b<Ctx: Cx>(t: &T) -> bool {
+    matches!(crate::ast::build::<String, Ctx>(t, &crate::ast::StrEnv), Ok(ms) if ms.ty.corr.base == miniscript::miniscript::types::Base::B)
+}
+
+/// One level of context, B results only.
+pub fn in_contexts<Ctx: Cx>(f: &T) -> Vec<T> { contexts1::<Ctx>(f).into_iter().filter(|t| is_b::<Ctx>(t)).collect() }
+
+/// Two nested levels of context (sibling keys of the inner level renamed), B results only.
+pub fn in_contexts2<Ctx: Cx>(f: &T) -> Vec<T> {
+    let mut out = vec![];
+    for c1 in contexts1::<Ctx>(f) {
+        let inner = c1.map_keys(&mut |k| match k {
+            "K8" => "K18".to_string(),
+            "K7" => "K17".to_string(),
+            "K6" => "K16".to_string(),
+            "K5" => "K15".to_string(),
+            o => o.to_string(),
+        });
+        for c2 in contexts1::<Ctx>(&inner) {
+            if is_b::<Ctx>(&c2) {
+                out.push(c2);
+            }
+        }
+    }
+    out
+}
+
+/// `depth` nested levels of context (sibling keys renamed per level), B results only.
+pub fn in_contexts_n<Ctx: Cx>(f: &T, depth: usize) -> Vec<T> {
+    let mut cur = vec![f.clone()];
+    for level in 0..depth {
+        let mut next = std::collections::BTreeSet::new();
+        for t in &cur {
+            let inner = t.map_keys(&mut |k| if k.len() == 2 && k.starts_with('K') && "5678".contains(&k[1..]) { format!("K{}{}", level + 1, &k[1..]) } else { k.to_string() });
+            for c in contexts1::<Ctx>(&inner) {
+                next.insert(c);
+            }
+        }
+        cur = next.into_iter().collect();
+    }
+    cur.into_iter().filter(|t| is_b::<Ctx>(t)).collect()
+}
+
+/// Fragments the node-count enumeration does not reach but compilers emit routinely, and
+/// signature-free legs that are heavier than a signature (so that "cheapest" and "safest"
+/// choices diverge): used as extra hole fillers of the context family.
+pub fn macro_fragments(tap: bool) -> Vec<T> {
+    let b = |t: T| Box::new(t);
+    let sha = |h: &str| T::Sha256(h.into());
+    let h2 = T::AndV(b(T::Verify(b(sha("H1")))), b(sha("H2")));
+    let h3 = T::AndV(b(T::Verify(b(sha("H1")))), b(T::AndV(b(T::Verify(b(sha("H2")))), b(sha("H3")))));
+    let utv = |x: T| T::OrI(b(T::AndV(b(T::Verify(b(x))), b(T::True))), b(T::False));
+    let mut v = vec![
+        utv(sha("H1")),
+        T::OrI(b(T::False), b(T::ZeroNotEqual(b(T::Older(5))))),
+        T::OrI(b(T::False), b(T::ZeroNotEqual(b(T::After(10))))),
+        h2.clone(),
+        h3.clone(),
+        T::AndV(b(T::Verify(b(h3.clone()))), b(T::Older(5))),
+        T::AndV(b(T::Verify(b(h2.clone()))), b(T::After(10))),
+        utv(h2.clone()),
+        utv(h3.clone()),
+        T::AndV(b(T::Verify(b(T::Check(b(T::PkK("K1".into())))))), b(T::Older(5))),
+        T::AndV(b(T::Verify(b(T::Check(b(T::PkK("K1".into())))))), b(sha("H1"))),
+    ];
+    if tap {
+        v.push(T::MultiA(2, vec!["K1".into(), "K2".into(), "K3".into()]));
+    } else {
+        v.push(T::Multi(2, vec!["K1".into(), "K2".into(), "K3".into()]));
+    }
+    let wrapped: Vec<T> = v.iter().flat_map(|x| vec![T::Alt(b(x.clone())), T::Swap(b(x.clone()))]).collect();
+    v.extend(wrapped);
+    v
 }
 
 pub fn descriptor_models(u: &Universe, n_seg: usize, n_shwsh: usize, n_leg: usize, n_tap: usize, n_part: usize) -> Vec<D> {
@@ -653,7 +736,8 @@ pub fn descriptor_models_ctx(u: &Universe, n_seg: usize, n_shwsh: usize, n_leg: 
     // n_ctx + 8 nodes whose inner fragment is exhaustive
     {
         use rayon::prelude::*;
-        let fs = all_fragments(&u.segwit, n_ctx.min(u.segwit.levels.len() - 1));
+        let mut fs = all_fragments(&u.segwit, n_ctx.min(u.segwit.levels.len() - 1));
+        fs.extend(macro_fragments(false));
         let mut seen: std::collections::BTreeSet<T> = std::collections::BTreeSet::new();
         let v: Vec<T> = fs.par_iter().flat_map_iter(|f| in_contexts::<Segwitv0>(f)).collect();
         for t in v {
@@ -661,7 +745,8 @@ pub fn descriptor_models_ctx(u: &Universe, n_seg: usize, n_shwsh: usize, n_leg: 
                 out.push(D::Wsh(t));
             }
         }
-        let ft = all_fragments(&u.tap, n_ctx.min(u.tap.levels.len() - 1));
+        let mut ft = all_fragments(&u.tap, n_ctx.min(u.tap.levels.len() - 1));
+        ft.extend(macro_fragments(true));
         let v: Vec<T> = ft.par_iter().flat_map_iter(|f| in_contexts::<Tap>(f)).collect();
         let mut seen: std::collections::BTreeSet<T> = std::collections::BTreeSet::new();
         for t in v {
@@ -679,10 +764,14 @@ pub fn descriptor_models_ctx(u: &Universe, n_seg: usize, n_shwsh: usize, n_leg: 
         let ks = |a: usize, n: usize| -> Vec<String> { (a..a + n).map(|i| format!("K{}", i)).collect() };
         let sln_older = T::Swap(Box::new(T::OrI(Box::new(T::False), Box::new(T::ZeroNotEqual(Box::new(T::Older(5)))))));
         let a_sha = T::Alt(Box::new(T::Sha256("H1".into())));
+        // a:u:t:v:sha256(H): a hash leg with a unique dissatisfaction (keeps the threshold non-malleable)
+        let autv_sha = T::Alt(Box::new(T::OrI(Box::new(T::AndV(Box::new(T::Verify(Box::new(T::Sha256("H1".into())))), Box::new(T::True))), Box::new(T::False))));
         let mut wide: Vec<(T, bool)> = vec![]; // (term, ecdsa-only)
         for k in 1..=3 {
             wide.push((T::Thresh(k, vec![pk(1), spk(2), spk(3)]), false));
             wide.push((T::Thresh(k, vec![pk(1), spk(2), a_sha.clone()]), false));
+            wide.push((T::Thresh(k, vec![pk(1), spk(2), autv_sha.clone()]), false));
+            wide.push((T::Thresh(k, vec![pk(1), autv_sha.clone(), spk(2)]), false));
             wide.push((T::Thresh(k, vec![pk(1), spk(2), sln_older.clone()]), false));
             wide.push((T::Thresh(k, vec![T::Multi(1, ks(1, 2)), T::Alt(Box::new(T::Multi(1, ks(3, 2)))), spk(5)]), true));
             wide.push((T::Multi(k, ks(1, 3)), true));
